@@ -267,8 +267,10 @@ func VerifRotationSecondGeneration() {
 	fetches := 0
 	var fetchTimes []time.Time
 	var cert2 *x509.Certificate
+	thirdFails := zzverif.Bool("second_renewal_fails_once")
 	s := New(Options{Log: vNopLogger(), RequestSVIDFn: func(ctx context.Context, csr []byte) ([]*x509.Certificate, error) {
 		var r []*x509.Certificate
+		var ferr error
 		vNoteCSR(csr)
 		zzverif.Ghost(func() {
 			fetches++
@@ -280,11 +282,17 @@ func VerifRotationSecondGeneration() {
 			case 2:
 				cert2 = vCert(now.Add(-time.Duration(back)*time.Second), now.Add(time.Duration(ahead)*time.Second))
 				r = []*x509.Certificate{cert2}
+			case 3:
+				if thirdFails {
+					ferr = errIssuer
+					break
+				}
+				r = []*x509.Certificate{vCert(now, now.Add(1000*time.Hour))}
 			default:
 				r = []*x509.Certificate{vCert(now, now.Add(1000*time.Hour))}
 			}
 		})
-		return r, nil
+		return r, ferr
 	}})
 	s.clock = clk
 	ctx, cancel := context.WithCancel(context.Background())
@@ -322,6 +330,17 @@ func VerifRotationSecondGeneration() {
 	zzverif.Assert(fetches >= 3, "second_renewal_requested")
 	zzverif.Assert(!fetchTimes[2].Before(half2), "no_renewal_before_half_life")
 	zzverif.Assert(!fetchTimes[2].After(due.Add(time.Minute)), "renewal_no_later_than_one_minute_after_half_life")
+	if thirdFails && fetches == 3 {
+		// the failed attempt - however overdue it was - is retried ten seconds after it failed, and meanwhile the
+		// certificate fetched last is still served
+		d, ok := clk.NextDeadline()
+		zzverif.Assert(ok && d.Equal(fetchTimes[2].Add(10*time.Second)), "failed_renewal_retried_after_10s")
+		svid, err := s.SVIDSource().GetX509SVID()
+		zzverif.Assert(err == nil && svid.Certificates[0] == cert2, "failed_renewal_leaves_served_svid_alone")
+		clk.AdvanceTo(d)
+		zzverif.WaitQuiescent()
+		zzverif.Assert(fetches == 4, "failed_renewal_retried_after_10s")
+	}
 	cancel()
 	<-runDone
 	zzverif.Cover("rotation_second_generation_done")
